@@ -126,6 +126,12 @@ def run(ctx: Ctx):
     for f_ in fits:
         at = gv.guard_atoms(cfg.node_of(f_), stable_only=False)
         ctx.ob("C16-O3", "R14 GATE", b, "an existing bin is chosen only if the item fits its remaining capacity", atom_of("size <= remaining") in at, f"{sorted(at)[:6]}", node=f_)
+    # the variant flags are read from the *normalised* algorithm name (lower case, `_` -> `-`)
+    tb_ = ast.unparse(b.node)
+    norm = [n for n in own_nodes(b.node) if isinstance(n, ast.Assign) and ast.unparse(n.targets[0]) == "algo" and "algorithm" in names_in(n.value)]
+    dec = [n for n in own_nodes(b.node) if isinstance(n, ast.Assign) and ast.unparse(n.targets[0]) == "decreasing"]
+    okn = len(norm) == 1 and len(dec) == 1 and ".lower()" in ast.unparse(norm[0].value) and ".replace('_', '-')" in ast.unparse(norm[0].value) and ast.unparse(dec[0].value) == "algo.endswith('-decreasing')" and norm[0].lineno < dec[0].lineno
+    ctx.ob("C16-O3", "R5 PAIRING", b, "`decreasing` is decided on the normalised algorithm name (every accepted spelling of a decreasing variant sorts the items)", okn, f"algo = {ast.unparse(norm[0].value) if norm else '?'}; decreasing = {ast.unparse(dec[0].value) if dec else '?'}: a spelling that is accepted but not recognised as decreasing silently runs the online heuristic and loses the 11/9 OPT + 6/9 guarantee", node=dec[0] if dec else b.node)
     # a new bin is opened only because no open bin has room: the scan over the open bins is skipped for no item
     scans = [n for n in ast.walk(lp) if isinstance(n, ast.For) and ast.unparse(n.iter) == "enumerate(bins)"]
     ctx.floor("scans over the open bins", len(scans), 2)
@@ -224,6 +230,12 @@ def _v_scale_big_integers(tree):
     M.replace_expr(g, lambda e: M.src_is(e, "all((v == int(v) for v in all_vals))"), M.expr("all((v == int(v) for v in all_vals)) and capacity <= 100000"))
 
 
+def _v_decreasing_before_normalisation(tree):
+    g = M.find_func(tree, "solve_bin_pack")
+    M.replace_expr(g, lambda e: M.src_is(e, "algorithm.lower().replace('_', '-')"), M.expr("algorithm.lower()"))
+    M.replace_stmt(g, lambda s: isinstance(s, ast.If) and M.src_is(s.test, "decreasing") and M.src_has(s, "algo.replace('-decreasing', '')"), M.stmts("algo = algo.replace('_', '-').removesuffix('-decreasing')"))
+
+
 def _v_skip_scan_for_big_items(tree):
     g = M.find_func(tree, "solve_bin_pack")
     M.replace_stmt(g, lambda s: isinstance(s, ast.If) and M.src_is(s.test, "use_best_fit"), lambda s: [ast.If(test=M.expr("decreasing and size > bin_capacity // 2"), body=[ast.Pass()], orelse=[s])])
@@ -246,6 +258,7 @@ VARIANTS = [
     M.Variant("two bins labelled OPTIMAL", BP, _v_bin_optimal, "C16-O3"),
     M.Variant("huge integer capacities are down-scaled like decimals (seed C16-C)", KN, _v_scale_big_integers, "C16-O4"),
     M.Variant("decreasing variants skip the scan for items above floor(capacity / 2) (seed C16-F)", BP, _v_skip_scan_for_big_items, "C16-O3"),
+    M.Variant("`decreasing` tested before underscores are normalised (seed C16-H)", BP, _v_decreasing_before_normalisation, "C16-O3"),
     M.Variant("twin: reformat knapsack", KN, _t_reformat, None),
     M.Variant("twin: reformat bin_pack", BP, _t_reformat, None),
 ]
